@@ -482,4 +482,230 @@ Proof.
   - unfold occs_g. rewrite !in_app_iff. right. left. apply in_map_iff. exists f. auto.
 Qed.
 
+
+(* 2. an explicit (truthy) uuid wins, wherever it sits: at any occurrence of the container
+   (first, later, container group list, flow definition) or already in the dictionary
+   (sheet obj_id / record_*_uuid) *)
+Definition source (st : state) (k : kind) (n : name) (u : pyuuid) : Prop :=
+  In (k, (n, u)) (occsS (st_c st)) \/ dget (sel k (st_d st)) n = Some u.
+
+Lemma validate_binds st st' k n u : validateS st = Ok st' -> truthy u = true -> source st k n u ->
+  dget (sel k (st_d st')) n = Some u.
+Proof.
+  intros H Ht Hs. apply validate_ok in H as (ud1 & Hf & ->). cbn [st_d].
+  apply generate_missing_bound; [|exact Ht]. destruct Hs as [Hs|Hs].
+  - apply in_occs in Hs. apply (foldM_recorded _ _ _ _ _ _ Hf Hs), Ht.
+  - apply (ext_bound _ _ (foldM_ext _ _ _ Hf)); assumption.
+Qed.
+
+Lemma explicit_wins_S st st' k n u : dict_wf (st_d st) -> flows_have_uuid (st_c st) ->
+  validateS st = Ok st' -> truthy u = true -> source st k n u ->
+  forall u', In (k, (n, u')) (occsS (st_c st')) -> u' = u.
+Proof.
+  intros Hwf Hfl H Ht Hs u' Hin.
+  pose proof (validate_binds _ _ _ _ _ H Ht Hs) as Hb.
+  apply (validate_consistent _ _ Hwf Hfl H) in Hin as [_ Hin]. congruence.
+Qed.
+
+(* 3. two different explicit uuids for one name are rejected, wherever they sit *)
+Lemma conflict_rejected_S st k n u1 u2 : truthy u1 = true -> truthy u2 = true -> u1 <> u2 ->
+  source st k n u1 -> source st k n u2 ->
+  exists e, validateS st = Err e /\ (e = EConflict \/ e = EUnknownFlow).
+Proof.
+  intros T1 T2 Hne S1 S2. destruct (validateS st) as [st'|e] eqn:E.
+  - exfalso. apply Hne.
+    pose proof (validate_binds _ _ _ _ _ E T1 S1). pose proof (validate_binds _ _ _ _ _ E T2 S2). congruence.
+  - exists e. split; [reflexivity|apply (validate_err_kinds _ _ E)].
+Qed.
+
+(* 5. triggers: which flow names the container knows when the triggers are reached *)
+Definition flow_known (st : state) (n : name) : bool :=
+  dhas (fd (st_d st)) n
+  || existsb (fun f => str_eqb (f_name f) n) (flows (st_c st))
+  || existsb (fun r => kind_eqb (fst r) KFlow && str_eqb (fst (snd r)) n)
+       (flat_map (flow_refs at_ ct_) (flows (st_c st)) ++ flat_map campaign_refs (campaigns (st_c st))).
+
+Lemma kind_eqb_eq a b : kind_eqb a b = true <-> a = b.
+Proof. destruct a, b; cbn; split; congruence. Qed.
+
+Lemma in_pre_instrs_flow c n v : In (IRec KFlow n v) (pre_instrs c) <->
+  (exists f, In f (flows c) /\ f_name f = n /\ f_uuid f = v)
+  \/ In (KFlow, (n, v)) (flat_map (flow_refs at_ ct_) (flows c) ++ flat_map campaign_refs (campaigns c)).
+Proof.
+  unfold pre_instrs. rewrite !in_app_iff, !in_map_iff. split.
+  - intros [(g & H & _)|[(f & H & Hf)|[(r & H & Hr)|(r & H & Hr)]]].
+    + discriminate.
+    + injection H as <- <-. left. exists f. auto.
+    + destruct r as [rk [rn ru]]. cbn in H. injection H as -> -> ->. right. left. exact Hr.
+    + destruct r as [rk [rn ru]]. cbn in H. injection H as -> -> ->. right. right. exact Hr.
+  - intros [(f & Hf & <- & <-)|[Hr|Hr]].
+    + right. left. exists f. auto.
+    + right. right. left. exists (KFlow, (n, v)). auto.
+    + right. right. right. exists (KFlow, (n, v)). auto.
+Qed.
+
+Lemma flow_known_spec st n : flow_known st n = true <->
+  dhas (fd (st_d st)) n = true \/ exists v, In (IRec KFlow n v) (pre_instrs (st_c st)).
+Proof.
+  unfold flow_known. rewrite !orb_true_iff, !existsb_exists. split.
+  - intros [[H|(f & Hf & He)]|([rk [rn ru]] & Hr & He)].
+    + left. exact H.
+    + right. exists (f_uuid f). apply in_pre_instrs_flow. left. exists f. apply str_eqb_eq in He. auto.
+    + right. cbn [fst snd] in He. apply andb_true_iff in He as [E1 E2].
+      apply kind_eqb_eq in E1. apply str_eqb_eq in E2. subst. exists ru. apply in_pre_instrs_flow. right. exact Hr.
+  - intros [H|(v & H)]; [left; left; exact H|]. apply in_pre_instrs_flow in H as [(f & Hf & <- & <-)|Hr].
+    + left. right. exists f. split; [exact Hf|apply str_eqb_refl].
+    + right. exists (KFlow, (n, v)). split; [exact Hr|]. cbn. apply str_eqb_refl.
+Qed.
+
+(* the dictionary when the triggers are reached knows exactly the [flow_known] names *)
+Lemma pre_known st udA n : foldM exec (pre_instrs (st_c st)) (st_d st) = Ok udA ->
+  dhas (fd udA) n = flow_known st n.
+Proof.
+  intros H. destruct (flow_known st n) eqn:E.
+  - apply flow_known_spec in E as [E|(v & E)].
+    + apply (ext_has _ _ (foldM_ext _ _ _ H) KFlow), E.
+    + apply (foldM_recorded _ _ _ _ _ _ H E).
+  - destruct (dhas (fd udA) n) eqn:Eh; [|reflexivity]. exfalso.
+    apply dhas_dget in Eh as [v Hv]. change (fd udA) with (sel KFlow udA) in Hv.
+    apply (foldM_origin _ _ _ _ _ _ H) in Hv as [Hv|Hv].
+    + assert (flow_known st n = true); [|congruence]. apply flow_known_spec. left. apply dhas_dget. eauto.
+    + assert (flow_known st n = true); [|congruence]. apply flow_known_spec. right. eauto.
+Qed.
+
+Lemma trigger_refs_flow t r : In r (trigger_refs t) -> fst r = KFlow -> r = (KFlow, t_flow t).
+Proof.
+  unfold trigger_refs. cbn [In]. rewrite in_app_iff, !in_map_iff.
+  intros [H|[(g & <- & _)|(g & <- & _)]] Hk; [auto|discriminate|discriminate].
+Qed.
+
+(* if the trigger loop got through, every trigger's flow name was a key when the loop began *)
+Lemma triggers_checked ts : forall ud ud', foldM exec (flat_map trigger_instrs ts) ud = Ok ud' ->
+  forall t, In t ts -> dhas (fd ud) (fst (t_flow t)) = true.
+Proof.
+  induction ts as [|t0 ts IH]; intros ud ud' H t Hin; [destruct Hin|].
+  cbn [flat_map] in H. rewrite foldM_app in H.
+  destruct (foldM exec (trigger_instrs t0) ud) as [ud0|e] eqn:E0; [|discriminate].
+  assert (H0 : dhas (fd ud) (fst (t_flow t0)) = true).
+  { unfold trigger_instrs in E0. cbn [foldM exec] in E0.
+    destruct (dhas (fd ud) (fst (t_flow t0))); [reflexivity|discriminate]. }
+  destruct Hin as [<-|Hin]; [exact H0|].
+  pose proof (IH _ _ H t Hin) as Ht. apply dhas_dget in Ht as [v Hv].
+  change (fd ud0) with (sel KFlow ud0) in Hv.
+  apply (foldM_origin _ _ _ _ _ _ E0) in Hv as [Hv|Hv].
+  - apply dhas_dget. eauto.
+  - apply in_trigger_instrs in Hv as [Hv|(r & Hr & Hv)]; [discriminate|].
+    destruct r as [rk [rn ru]]. cbn in Hv. injection Hv as <- <- <-.
+    apply trigger_refs_flow in Hr; [|reflexivity]. injection Hr as Hr. rewrite <- Hr in H0. exact H0.
+Qed.
+
+Lemma unknown_trigger_rejected_S st t : In t (triggers (st_c st)) -> flow_known st (fst (t_flow t)) = false ->
+  exists e, validateS st = Err e /\ (e = EConflict \/ e = EUnknownFlow).
+Proof.
+  intros Hin Hk. destruct (validateS st) as [st'|e] eqn:E.
+  - exfalso. apply validate_ok in E as (ud1 & Hf & _). rewrite instrs_split, foldM_app in Hf.
+    destruct (foldM exec (pre_instrs (st_c st)) (st_d st)) as [udA|e] eqn:EA; [|discriminate].
+    pose proof (triggers_checked _ _ _ Hf t Hin) as Hc. rewrite (pre_known _ _ _ EA) in Hc. congruence.
+  - exists e. split; [reflexivity|apply (validate_err_kinds _ _ E)].
+Qed.
+
+(* ... and the trigger error is raised ONLY for a flow name that is unknown in this sense *)
+Lemma unknown_flow_error_S st : validateS st = Err EUnknownFlow ->
+  exists t, In t (triggers (st_c st)) /\ flow_known st (fst (t_flow t)) = false.
+Proof.
+  intros H. apply validate_err in H. rewrite instrs_split, foldM_app in H.
+  destruct (foldM exec (pre_instrs (st_c st)) (st_d st)) as [udA|e] eqn:EA.
+  - apply foldM_unknown in H as (n & Hin & Hh). apply in_flat_map in Hin as (t & Ht & Hin).
+    apply in_trigger_instrs in Hin as [Hin|(r & _ & Hin)]; [|destruct r as [rk [rn ru]]; discriminate].
+    injection Hin as ->. exists t. split; [exact Ht|]. rewrite <- (pre_known _ _ _ EA). exact Hh.
+  - exfalso. injection H as ->. apply foldM_unknown in EA as (n & Hin & _). apply (pre_instrs_no_check _ _ Hin).
+Qed.
+
+Lemma conflict_exact_S st k n u1 u2 : truthy u1 = true -> truthy u2 = true -> u1 <> u2 ->
+  source st k n u1 -> source st k n u2 ->
+  (forall t, In t (triggers (st_c st)) -> flow_known st (fst (t_flow t)) = true) ->
+  validateS st = Err EConflict.
+Proof.
+  intros T1 T2 Hne S1 S2 Hk.
+  destruct (conflict_rejected_S _ _ _ _ _ T1 T2 Hne S1 S2) as (e & He & [->| ->]); [exact He|].
+  exfalso. apply unknown_flow_error_S in He as (t & Ht & Hf). rewrite (Hk t Ht) in Hf. discriminate.
+Qed.
+
+(* when validate succeeds, a trigger's flow reference carries the one uuid of that flow name *)
+Lemma trigger_flow_resolved_S st st' t : dict_wf (st_d st) -> flows_have_uuid (st_c st) ->
+  validateS st = Ok st' -> In t (triggers (st_c st')) ->
+  truthy (snd (t_flow t)) = true
+  /\ dget (fd (st_d st')) (fst (t_flow t)) = Some (snd (t_flow t))
+  /\ forall u, In (KFlow, (fst (t_flow t), u)) (occsS (st_c st')) -> u = snd (t_flow t).
+Proof.
+  intros Hwf Hfl H Hin. pose proof (validate_consistent _ _ Hwf Hfl H) as Hc.
+  assert (Ho : In (KFlow, (fst (t_flow t), snd (t_flow t))) (occsS (st_c st'))).
+  { unfold occs_g, refs_of. rewrite !in_app_iff. right. right. right. right.
+    apply in_flat_map. exists t. split; [exact Hin|]. unfold trigger_refs. left.
+    destruct (t_flow t); reflexivity. }
+  destruct (Hc _ _ _ Ho) as [Ht Hg]. split; [exact Ht|]. split; [exact Hg|].
+  intros u Hu. apply (consistent_pairwise _ _ _ _ _ Hc Hu Ho).
+Qed.
+
+(* 6. invented uuids.  The invariant: the counter is above every invented uuid of the
+   dictionary, no two (kind, name) share an invented uuid, and an invented uuid that sits
+   in the container is the dictionary's value for that name *)
+Record fresh_inv (st : state) : Prop := {
+  fi_wf : dict_wf (st_d st);
+  fi_ctr : forall k n m, dget (sel k (st_d st)) n = Some (Some (Fresh m)) -> m < ctr (st_d st);
+  fi_inj : forall k1 n1 k2 n2 m, dget (sel k1 (st_d st)) n1 = Some (Some (Fresh m)) ->
+             dget (sel k2 (st_d st)) n2 = Some (Some (Fresh m)) -> k1 = k2 /\ n1 = n2;
+  fi_c : forall k n m, In (IRec k n (Some (Fresh m))) (instrs (st_c st)) ->
+             dget (sel k (st_d st)) n = Some (Some (Fresh m)) }.
+
+Lemma foldM_fresh is ud ud' : (forall k n m, In (IRec k n (Some (Fresh m))) is -> dget (sel k ud) n = Some (Some (Fresh m))) ->
+  foldM exec is ud = Ok ud' ->
+  forall k n m, dget (sel k ud') n = Some (Some (Fresh m)) -> dget (sel k ud) n = Some (Some (Fresh m)).
+Proof.
+  intros Hc H k n m Hg. apply (foldM_origin _ _ _ _ _ _ H) in Hg as [Hg|Hg]; [exact Hg|apply Hc, Hg].
+Qed.
+
+Lemma fresh_inv_validate st st' : fresh_inv st -> validateS st = Ok st' -> fresh_inv st'.
+Proof.
+  intros [Hwf Hctr Hinj Hc] H.
+  pose proof (dict_wf_validate _ _ Hwf H) as Hwf'. pose proof (after_validate _ _ Hwf H) as Ha.
+  apply validate_ok in H as (ud1 & Hf & ->). cbn [st_d st_c] in *.
+  pose proof (foldM_ext _ _ _ Hf) as Hext.
+  pose proof (foldM_fresh _ _ _ Hc Hf) as Hold.
+  assert (Hctr1 : forall k n m, dget (sel k ud1) n = Some (Some (Fresh m)) -> m < ctr ud1).
+  { intros k n m Hg. rewrite (ext_ctr _ _ Hext). apply (Hctr k n m), Hold, Hg. }
+  pose proof (generate_missing_ctr ud1) as Hle.
+  constructor; cbn [st_d st_c].
+  - exact Hwf'.
+  - intros k n m Hg. apply generate_missing_fresh_origin in Hg as [Hg|Hg]; [|lia].
+    apply Hctr1 in Hg. lia.
+  - intros k1 n1 k2 n2 m H1 H2. destruct (le_lt_dec (ctr ud1) m) as [Hm|Hm].
+    + apply (generate_missing_inj ud1 k1 n1 k2 n2 m); auto.
+      intros k n m' Hi. apply (Hctr1 k n). apply in_dget; [|exact Hi].
+      apply (ext_nodup _ _ Hext), Hwf.
+    + apply generate_missing_fresh_origin in H1 as [H1|H1]; [|lia].
+      apply generate_missing_fresh_origin in H2 as [H2|H2]; [|lia].
+      apply (Hinj k1 n1 k2 n2 m); apply Hold; assumption.
+  - intros k n m Hin. destruct (Ha _ Hin) as [(r & Hg & _ & [Hu|Hu]) _]; [discriminate|]. subst r. exact Hg.
+Qed.
+
+(* the uuids invented by this call are new: they occur nowhere in the state before *)
+Lemma invented_new_S st st' k n m : fresh_inv st -> validateS st = Ok st' ->
+  dget (sel k (st_d st')) n = Some (Some (Fresh m)) -> ctr (st_d st) <= m ->
+  (forall k0 n0, dget (sel k0 (st_d st)) n0 <> Some (Some (Fresh m)))
+  /\ (forall k0 n0, ~ In (k0, (n0, Some (Fresh m))) (occsS (st_c st))).
+Proof.
+  intros [Hwf Hctr Hinj Hc] H Hg Hm. split.
+  - intros k0 n0 H0. apply Hctr in H0. lia.
+  - intros k0 n0 H0. apply in_occs in H0. apply Hc, Hctr in H0. lia.
+Qed.
+
+(* an invented uuid in the rendered container belongs to one (kind, name) only *)
+Lemma fresh_inv_occs st k1 n1 k2 n2 m : fresh_inv st ->
+  In (k1, (n1, Some (Fresh m))) (occsS (st_c st)) -> In (k2, (n2, Some (Fresh m))) (occsS (st_c st)) ->
+  k1 = k2 /\ n1 = n2.
+Proof.
+  intros [Hwf Hctr Hinj Hc] H1 H2. apply in_occs in H1, H2. apply (Hinj k1 n1 k2 n2 m); apply Hc; assumption.
+Qed.
+
 End Tables.
